@@ -167,6 +167,8 @@ type c07World struct {
 	released bool
 	failed   bool
 	stream   string
+	// principal world: several attempts of one UpdatePrincipal call are observed together
+	deferAccounting bool
 }
 
 var c07CaseNo int
@@ -293,19 +295,15 @@ func c07Kind(what string) string { return strings.SplitN(what, " ", 2)[0] }
 
 // exec runs one op on the implementation, observes, and evaluates the per-step monitors
 func (w *c07World) exec(o c07Op) c07Obs {
-	w.ops = append(w.ops, o)
-	step := len(w.ops) - 1
 	w.mu.Lock()
 	w.writes = nil
 	w.mu.Unlock()
-	var ob c07Obs
 	var res *c07Res
 	var envBefore uint64
 	a := (*sequenceAllocator)(nil)
 	if o.Kind != "env" {
 		a = w.al[o.I]
 	}
-	discarded := false
 	switch o.Kind {
 	case "next", "disc":
 		c07SetFast(o.Fast)
@@ -313,9 +311,10 @@ func (w *c07World) exec(o c07Op) c07Obs {
 		res = &c07Res{s, err}
 		if err == nil && o.Kind == "disc" {
 			if rerr := a.releaseSequence(w.ctx, s); rerr != nil {
+				w.ops = append(w.ops, o)
 				w.fail("release_error", "release-error", fmt.Sprintf("releaseSequence(%d): %v", s, rerr))
+				w.ops = w.ops[:len(w.ops)-1]
 			}
-			discarded = true
 		}
 	case "gtb":
 		c07SetFast(o.Fast)
@@ -355,15 +354,23 @@ func (w *c07World) exec(o c07Op) c07Obs {
 			}
 		}
 	}
-	ob.Counter = w.counter()
-	if o.Kind != "env" {
-		ob.Parked = w.parked[o.I]
-	}
-	// documents written by this op
 	w.mu.Lock()
 	writes := w.writes
 	w.writes = nil
 	w.mu.Unlock()
+	return w.observe(o, res, w.counter(), writes, envBefore)
+}
+
+// observe records what one op did (res: what the call returned, counter: _sync:seq after it, writes: the
+// unused-sequence documents it wrote) and evaluates the per-step monitors
+func (w *c07World) observe(o c07Op, res *c07Res, counter uint64, writes []c07Write, envBefore uint64) c07Obs {
+	w.ops = append(w.ops, o)
+	step := len(w.ops) - 1
+	var ob c07Obs
+	ob.Counter = counter
+	if o.Kind != "env" {
+		ob.Parked = w.parked[o.I]
+	}
 	for _, wr := range writes {
 		lo, hi, single, ok := w.decode(wr)
 		if !ok {
@@ -382,7 +389,7 @@ func (w *c07World) exec(o c07Op) c07Obs {
 		if single {
 			ob.Ones = append(ob.Ones, lo)
 			// a single release is legitimate only for the number this very op obtained and discarded
-			if !(discarded && res != nil && res.err == nil && res.seq == lo) {
+			if !(o.Kind == "disc" && res != nil && res.err == nil && res.seq == lo) {
 				w.fail("alloc_unique", "single-release-of-foreign-number", fmt.Sprintf("step %d: released single %d", step, lo))
 			}
 		} else {
@@ -427,7 +434,9 @@ func (w *c07World) exec(o c07Op) c07Obs {
 		}
 	}
 	w.obs = append(w.obs, ob)
-	w.accounting(step, false)
+	if !w.deferAccounting {
+		w.accounting(step, false)
+	}
 	return ob
 }
 
@@ -660,15 +669,11 @@ func TestVerifC07(t *testing.T) {
 		alpha = append(alpha, c07Sym{kind: "gt", i: i, rel: c07RelMaxP1, fast: true}, c07Sym{kind: "gt", i: i, rel: c07RelCtrP3, fast: false})
 	}
 	alpha = append(alpha, c07Sym{kind: "env"}, c07Sym{kind: "stop", i: 0})
-	maxLen := 3
-	if vThorough() {
-		maxLen = 4
-	}
 	exhaustive := 0
-	var enum func(prefix []int, depth int)
-	enum = func(prefix []int, depth int) {
+	var enum func(alpha []c07Sym, n int, prefix []int, depth int)
+	enum = func(alpha []c07Sym, n int, prefix []int, depth int) {
 		if len(prefix) > 0 {
-			w := newWorld(2, "exhaustive")
+			w := newWorld(n, "exhaustive")
 			ok := true
 			for _, k := range prefix {
 				if !w.play(alpha[k]) {
@@ -703,12 +708,25 @@ func TestVerifC07(t *testing.T) {
 			if len(prefix) == 0 && alpha[k].i == 1 {
 				continue
 			}
-			enum(append(append([]int(nil), prefix...), k), depth-1)
+			enum(alpha, n, append(append([]int(nil), prefix...), k), depth-1)
 		}
 	}
-	enum(nil, maxLen)
+	enum(alpha, 2, nil, 3)
+	scope := fmt.Sprintf("all executable op sequences of length <= 3 over %d symbols (2 allocators, first op on allocator 0): %d sequences", len(alpha), exhaustive)
+	if vThorough() {
+		// one allocator, one more step: the symbols of allocator 0 plus the environment and stop
+		var alpha1 []c07Sym
+		for _, s := range alpha {
+			if s.i == 0 {
+				alpha1 = append(alpha1, s)
+			}
+		}
+		before := exhaustive
+		enum(alpha1, 1, nil, 4)
+		scope += fmt.Sprintf("; length <= 4 over %d symbols (1 allocator): %d sequences", len(alpha1), exhaustive-before)
+	}
 	rec.Extra("exhaustive", true)
-	rec.Extra("exhaustive_scope", fmt.Sprintf("all executable op sequences of length <= %d over %d symbols (2 allocators, first op on allocator 0): %d sequences", maxLen, len(alpha), exhaustive))
+	rec.Extra("exhaustive_scope", scope)
 
 	// ---- (c) random streams, 1..3 allocators ----
 	pickFloor := func(w *c07World, i int, adversarial bool) uint64 {
@@ -828,4 +846,7 @@ func TestVerifC07(t *testing.T) {
 	for k := vBudget(90, 900); k > 0; k-- {
 		randomCase("adversarial", 10+rnd.Intn(30), true)
 	}
+
+	// ---- (d) the real UpdatePrincipal on a database whose allocator is observed ----
+	c07Principals(t, rec, rnd)
 }
